@@ -632,6 +632,22 @@ def main(run):
             run.oracle_violation("strategy left in a state the harness cannot read: %s" % type(e).__name__,
                                  {"kind": "synthetic", "dim": n}, observed=traceback.format_exc()[-1500:])
 
+    # informational (not part of the verdict): the boundary of the domain assumption.  With user-supplied
+    # ccov1 + ccovmu >= 1 the code clamps ccovmu to 1 - ccov1, the old C is forgotten entirely and, when
+    # mu + 1 < dim, the new C is rank deficient: eigh returns a slightly negative eigenvalue and diagD gets NaN.
+    try:
+        with numpy.errstate(all="ignore"):
+            sb = cma.Strategy([0.0] * 8, 1.0, lambda_=4, mu=2, ccov1=0.366, ccovmu=0.85)
+            numpy.random.seed(12345)
+            popb = sb.generate(indcls((-1.0,), False))
+            evaluate(popb, f_sphere)
+            sb.update(popb)
+            stats["boundary_forgetting_rates"] = {
+                "one_minus_c1_minus_cmu": float(1.0 - sb.ccov1 - sb.ccovmu),
+                "rank_of_new_C": int(numpy.linalg.matrix_rank(sb.C)),
+                "diagD_has_nan_or_zero": bool(numpy.any(~numpy.isfinite(sb.diagD)) or numpy.any(sb.diagD <= 1e-7))}
+    except Exception as e:  # noqa
+        stats["boundary_forgetting_rates"] = "raised %s" % type(e).__name__
     run.extra_cov["c13"] = stats
     for g in ("params", "init", "update", "gen"):
         run.correspond(g, "C13", terms[g], cases[g], shard={"params": 400, "init": 60, "update": 40, "gen": 80}[g],
